@@ -539,15 +539,25 @@ func reqsJSON(rs []creq) []string {
 var reportedModes = []int{1, 1000, 1002, 1003, 1006, 1007, 1049, 2004}
 
 func parseChild(b []byte) []ansi.Sequence {
+	out, timerEsc := parseChildOnce(b)
+	for n := 0; n < hx.TimerEscRetries && timerEsc; n++ {
+		out, timerEsc = parseChildOnce(b) // scheduling artefact, see hx.IsTimerEsc
+	}
+	return out
+}
+
+func parseChildOnce(b []byte) (out []ansi.Sequence, timerEsc bool) {
 	p := ansi.NewParser(bytes.NewReader(b))
-	var out []ansi.Sequence
 	for s := range p.Next() {
 		if _, ok := s.(ansi.EOF); ok {
 			continue
 		}
+		if hx.IsTimerEsc(s) {
+			timerEsc = true
+		}
 		out = append(out, s)
 	}
-	return out
+	return out, timerEsc
 }
 
 // runChild: a fresh emulator (80x24, no child process) receives the child's
